@@ -3,5 +3,5 @@ CONSTANTS Cids = {1, 2, 3}
           MaxOps = 0
           MaxRb = 2
           NProd = 2
-          AsBuilt = {"ReAdd", "Empty", "Refresh", "Mark"}
+          AsBuilt = {"ReAdd", "Empty", "Refresh", "Mark", "Merge"}
           E = 30
